@@ -350,10 +350,12 @@ theorem handleIBTP_glob_dead {env : Env} {l : Led} {i : Ibtp} {r : Led × String
               · exact ⟨st, by unfold globState at *; rw [hother hg]; exact hst, hd⟩
       · simp only [hreq, if_false, Bool.false_eq_true] at hr
         split at hr
+        · split at hr
+          · cases hr
+          · rename_i y hy
+            cases hr
+            exact tmReport_glob_dead hy gid st hst hd
         · cases hr
-        · rename_i y hy
-          cases hr
-          exact tmReport_glob_dead hy gid st hst hd
     obtain ⟨st', h1, h2⟩ := key
     exact ⟨st', by unfold globState at *; rw [hafter]; exact h1, h2⟩
 
